@@ -109,6 +109,8 @@ def gapfill(run, fx):
         unset = [f for f in about.get(own, []) if dom.implies(f, (f[0], '<', '0'))]
         if not unset:
             continue                # not a gap-filling site (the min/max pass over the slots' own ranges)
+        if not any((y.get('fq') or '') == 'graphite2::Slot::index' for y in fn.walk(fn.deref(e['args'][0]))):
+            continue                # not an extension of a slot (the completion pass copies the character's other side)
         n += 1
         inst = 'fill char.%s @%s' % (own, e['ln'])
         extra = sorted(k for k in about if k != own)
@@ -119,6 +121,74 @@ def gapfill(run, fx):
             run.held('CINFO', inst, fn.loc(e), 'guarded by `%s %s %s` and by nothing else about the character' % unset[0])
     if n < 2:
         run.broken('CINFO', 'gap filling', 'expected the two gap-filling loops of associateChars (char.after, char.before), found %d' % n, fn.where())
+
+
+def edgefill(run, fx):
+    """a run of unclaimed characters at the very start of the text is reached only by a walk that goes backwards from a slot's first
+    character (or by a pass over all characters), never by one that goes forwards from Slot::before() / Slot::after() -- so some
+    store that gives a character its `after` must sit in such a walk; symmetrically for `before` and a trailing run.  Otherwise
+    those characters keep after == -1 (before == -1), which is no slot index."""
+    from .util import reaches_avoiding
+    fn = fx.one('graphite2::Segment::associateChars')
+
+    def defs_of(vid):
+        out = []
+        for _, d in fn.elements():
+            if d['k'] == 'DeclStmt':
+                out.extend((d, x_['init']) for x_ in d.get('decls', []) if x_.get('vid') == vid and x_.get('init') is not None)
+            elif d['k'] == 'BinaryOperator' and d['op'] == '=' and fn.strip_all_casts(d['c'][0])['k'] == 'DeclRefExpr' and fn.strip_all_casts(d['c'][0]).get('vid') == vid:
+                out.append((d, d['c'][1]))
+        return out
+
+    def steps_of(vid):
+        return [u for _, u in fn.elements() if u['k'] == 'UnaryOperator' and u.get('op') in ('pre++', 'post++', 'pre--', 'post--')
+                and fn.strip_all_casts(u['c'][0]).get('vid') == vid] + \
+               [u for _, u in fn.elements() if u['k'] == 'CompoundAssignOperator' and u.get('op') in ('+=', '-=') and fn.strip_all_casts(u['c'][0]).get('vid') == vid]
+
+    def walks(expr, site, depth=0):
+        """{(origin accessor or None, direction)} of the walk(s) over characters in which `expr`, evaluated at `site`, takes its values"""
+        out = set()
+        for y in fn.walk(expr):
+            if y['k'] == 'CXXMemberCallExpr' and (y.get('fq') or '') in ('graphite2::Slot::after', 'graphite2::Slot::before') and not y.get('args'):
+                out.add((y['fq'].split('::')[-1], None))
+            if y['k'] == 'DeclRefExpr' and y.get('vid') is not None and depth < 4 and y.get('dk', 'Var') != 'ParmVar':
+                ds = defs_of(y['vid'])
+                alld = [d for d, _ in ds]
+                for d, rhs in ds:
+                    if not reaches_avoiding(fn, d, site, [x for x in alld if x is not d]):
+                        continue
+                    sub = walks(rhs, d, depth + 1)
+                    dirs = set()
+                    for u in steps_of(y['vid']):
+                        if reaches_avoiding(fn, d, u, [x for x in alld if x is not d]):
+                            dirs.add('forward' if u.get('op') in ('pre++', 'post++', '+=') else 'backward')
+                    if not sub:
+                        sub = {(None, None)}
+                    for o, dr in sub:
+                        for nd in (dirs or {dr}):
+                            out.add((o, nd if nd is not None else dr))
+        return out
+
+    sites = {'after': [], 'before': []}
+    for e in calls_in(fn):
+        fq = e.get('fq') or ''
+        if fq not in ('graphite2::CharInfo::after', 'graphite2::CharInfo::before') or not e.get('args'):
+            continue
+        if fn.strip_all_casts(e['args'][0]).get('v') is not None:
+            continue                # the reset to -1
+        sites[fq.split('::')[-1]].append((e, walks(fn.strip_all_casts(e['obj']), e)))
+    for own, need, what in (('after', ('before', 'backward'), 'leading'), ('before', ('after', 'forward'), 'trailing')):
+        inst = '%s run gets char.%s' % (what, own)
+        good = [(e, w) for e, w in sites[own] if need in w or (w and all(o is None for o, _ in w))]
+        if not sites[own]:
+            run.broken('CINFO', inst, 'no store of char.%s found in associateChars' % own, fn.where())
+        elif good:
+            e, w = good[0]
+            run.held('CINFO', inst, fn.loc(e), 'set in a walk that %s' % ('goes %s from Slot::%s()' % (need[1], need[0]) if need in w else 'covers the characters independent of slot ranges'))
+        else:
+            run.violated('CINFO', inst, fn.where(), 'a %s run of characters that no slot claimed (their slots were deleted without ASSOC) is reached only by a walk going %s from '
+                         'Slot::%s() or by a pass over all characters; no store of char.%s sits in such a walk (walks of the stores: %s), so those characters keep %s == -1, '
+                         'which is not a slot index' % (what, need[1], need[0], own, [sorted(w, key=str) for _, w in sites[own]], own))
 
 
 def assocdom(run, fx):
@@ -211,6 +281,7 @@ def run(run):
     assocdom(run, fx)
     cinfo(run, fx)
     gapfill(run, fx)
+    edgefill(run, fx)
     from . import width
     width.no_narrow(run, fx, 'CINFO', ['graphite2::Slot::m_original', 'graphite2::Slot::m_before', 'graphite2::Slot::m_after',
                                        'graphite2::CharInfo::m_before', 'graphite2::CharInfo::m_after', 'graphite2::CharInfo::m_base',
